@@ -17,6 +17,7 @@ import (
 	"os"
 	"strconv"
 	"strings"
+	"sync"
 
 	"github.com/a-h/templ"
 
@@ -107,18 +108,37 @@ func body(tokens []json.RawMessage, caseID, prof int) (string, error) {
 
 var errRender = errors.New("verif: injected render failure")
 
-func component(c config, caseID, prof int) templ.Component {
+// reqInfo travels in the request context: ONE handler instance per handler configuration serves every request
+// of the run (as a long-lived server does), and the component reads what to render for this request from the context.
+// That way request sequences -- a failed render followed by a successful one -- go through the same
+// ComponentHandler and whatever state it or the runtime keeps between requests.
+type reqKey struct{}
+
+type reqInfo struct {
+	K, CaseID, Prof int
+	Fail            bool
+}
+
+func component() templ.Component {
 	return templ.ComponentFunc(func(ctx context.Context, w io.Writer) error {
-		for i := 1; i <= c.K; i++ {
-			if _, err := io.WriteString(w, chunk(caseID, prof, i)); err != nil {
+		ri, ok := ctx.Value(reqKey{}).(reqInfo)
+		if !ok {
+			return errors.New("verif: request info missing from the context")
+		}
+		for i := 1; i <= ri.K; i++ {
+			if _, err := io.WriteString(w, chunk(ri.CaseID, ri.Prof, i)); err != nil {
 				return err
 			}
 		}
-		if c.Fail {
+		if ri.Fail {
 			return errRender
 		}
 		return nil
 	})
+}
+
+func withInfo(r *http.Request, c config, caseID, prof int) *http.Request {
+	return r.WithContext(context.WithValue(r.Context(), reqKey{}, reqInfo{K: c.K, CaseID: caseID, Prof: prof, Fail: c.Fail}))
 }
 
 func errorHandler(kind string, sawErr *error) func(r *http.Request, err error) http.Handler {
@@ -142,8 +162,27 @@ func errorHandler(kind string, sawErr *error) func(r *http.Request, err error) h
 	}
 }
 
-func handler(c config, caseID, prof int, generated bool) http.Handler {
-	comp := component(c, caseID, prof)
+type instanceKey struct {
+	Status    int
+	CType, EH string
+	Stream    bool
+	Generated bool
+}
+
+var (
+	instMu    sync.Mutex
+	instances = map[instanceKey]http.Handler{}
+)
+
+// handler returns the long-lived handler instance for a configuration (created on first use).
+func handler(c config, generated bool) http.Handler {
+	k := instanceKey{c.Status, c.CType, c.EH, c.Stream, generated}
+	instMu.Lock()
+	defer instMu.Unlock()
+	if h, ok := instances[k]; ok {
+		return h
+	}
+	comp := component()
 	if generated {
 		comp = wrap(comp)
 	}
@@ -161,7 +200,9 @@ func handler(c config, caseID, prof int, generated bool) http.Handler {
 	if c.Stream {
 		opts = append(opts, templ.WithStreaming())
 	}
-	return templ.Handler(comp, opts...)
+	h := templ.Handler(comp, opts...)
+	instances[k] = h
+	return h
 }
 
 type response struct {
@@ -231,7 +272,7 @@ func main() {
 			http.Error(w, "bad case", 599)
 			return
 		}
-		handler(cases[id].Cfg, id, prof, gen == 1).ServeHTTP(w, r)
+		handler(cases[id].Cfg, gen == 1).ServeHTTP(w, withInfo(r, cases[id].Cfg, id, prof))
 	}))
 	defer srv.Close()
 	client := srv.Client()
@@ -260,7 +301,7 @@ func main() {
 		switch transport {
 		case "recorder":
 			rec := httptest.NewRecorder()
-			handler(e.Cfg, id, prof, generated).ServeHTTP(rec, httptest.NewRequest("GET", "/", nil))
+			handler(e.Cfg, generated).ServeHTTP(rec, withInfo(httptest.NewRequest("GET", "/", nil), e.Cfg, id, prof))
 			res := rec.Result()
 			bb, _ := io.ReadAll(res.Body)
 			got = response{Status: res.StatusCode, CT: res.Header.Get("Content-Type"), XErr: res.Header.Get("X-Err"), Body: string(bb)}
